@@ -5,7 +5,7 @@
 W=${1:-4}
 cd /verif
 OUT=/tmp/seeded_regress.$$; mkdir -p $OUT
-ls -d seeded/C* | sort > $OUT/all
+ls -d seeded/C* | sort | grep -E "${SR_FILTER:-.}" > $OUT/all      # SR_FILTER=regex: only those seeded changes
 k=0
 while [ $k -lt $W ]; do
   ( wt=/tmp/sr_$k; git -C /repo worktree add --detach $wt HEAD >/dev/null 2>&1
